@@ -97,7 +97,7 @@ class Prop(object):
     RULE = ('the C15 history space (26 operations, 3 roots, depth bound) with the C07 invariant in every state, plus every C06 key set in unprotected / locked / unlocked '
             'form: derived public object exports only tags 6, 14, 13, 17, 2 (binary and armored), equals the private key in fingerprint, identities, subkeys and '
             'exportable signatures, contains no secret-integer octets, its object graph holds no secret, and sign / certify / revoke / revoker / bind / decrypt / '
-            'add_subkey refuse while protect / unlock leave it public. One state = one canonical key state.')
+            'add_subkey refuse while protect / unlock leave it public. Key-level signatures by other keys (direct-key certification, revocation; every ordered selection of 1..3 of 4) on a live / re-imported private key, twin derived before / after. One state = one canonical key state.')
     ASSUMPTIONS = ['secret needles are every secret integer of >= 8 octets and each secret MPI block of the fixture key material']
     CASE_TIMEOUT = 1500
 
@@ -118,6 +118,7 @@ class Prop(object):
             u.append(('forms', {'keyset': ks, 'created': 'offset'}))
         # private keys written by another producer (reference encoder): identities a PGPy-made key never has
         u.append(('foreign', {}))
+        u.append(('strangers', {}))
         return u
 
     def run_case(self, check, case):
@@ -127,6 +128,8 @@ class Prop(object):
             return self.c_forms(r, case)
         if check == 'foreign':
             return self.c_foreign(r, case)
+        if check == 'strangers':
+            return self.c_strangers(r, case)
         root = case['root']
         if 'hist' in case:
             self.check_state(r, H.replay(root, case['hist']), case['hist'], root)
@@ -201,6 +204,57 @@ class Prop(object):
                     kinds.add(kind)
                     r.viol('foreign', {'kind': kind, 'uat': shape.get('uat_kind') or 'image'}, dict(case, only=si), detail)
         r.samples.append({'foreign_shapes': len(shapes)})
+        return r
+
+    def c_strangers(self, r, case):
+        """Key-level signatures issued by OTHER keys (a third party's direct-key certification, a revocation issued by another key) attached to a live
+        private key: every ordered selection of them x the private key live / re-imported x the public twin derived before (kept alive) or after the
+        signatures arrived. The twin carries what the key carries."""
+        import itertools
+        import pgpy
+        from pgpy.constants import KeyFlags
+        issuers = {'bob': K.pgpy_cert('ed25519b', uid='Bob <bob@example.org>')[0], 'carol': K.pgpy_cert('ecdsa_p256b', uid='Carol <carol@example.org>')[0]}
+        other_pub = issuers['bob'].pubkey
+        menu = [('bob', 'certify'), ('carol', 'certify'), ('carol', 'revoke'), ('bob', 'revoke')]
+        seqs = [sq for n in (1, 2, 3) for sq in itertools.permutations(menu, n)]
+        si = -1
+        for prim in ('ed25519a', 'ecdsa_p256a'):
+            for sq in seqs:
+                for form in ('live', 're-imported'):
+                    for twin in ('after', 'before'):
+                        si += 1
+                        if case.get('only') is not None and case['only'] != si:
+                            continue
+                        r.states += 1
+                        probs = []
+                        label = 'private key %s (%s) given key-level signatures %s, public twin derived %s' % (prim, form, ' then '.join('%s by %s' % (w, i) for i, w in sq), twin)
+                        try:
+                            key, raw = K.pgpy_cert(prim, uid='Alice <alice@example.org>', usage={KeyFlags.Certify, KeyFlags.Sign})
+                            raws = [raw, K.raw('cv25519a', K.T0)]
+                            key.add_subkey(K.pgpy_secret(raws[1]), usage={KeyFlags.EncryptCommunications}, created=K.dt(K.T0 + 9))
+                            early = key.pubkey if twin == 'before' else None
+                            for n, (who, what) in enumerate(sq):
+                                if what == 'certify':
+                                    key |= issuers[who].certify(key, created=K.dt(K.T0 + 20 + n))
+                                else:
+                                    key |= issuers[who].revoke(key, created=K.dt(K.T0 + 20 + n))
+                            obj = key if form == 'live' else pgpy.PGPKey.from_blob(bytes(key))[0]
+                            view = H.key_view(bytes(obj))
+                            if len(view['direct']) != len(sq):
+                                probs.append(('exception', '%s: the private key itself exports %d key-level signatures' % (label, len(view['direct']))))
+                            r.transitions += check_public(obj.pubkey, raws, other_pub, probs, label, view)
+                            if early is not None and form == 'live':
+                                r.transitions += check_public(early, raws, other_pub, probs, label + ' (the twin derived earlier)', view)
+                        except Exception as e:
+                            import traceback
+                            probs.append(('exception', '%s: %r %s' % (label, e, traceback.format_exc()[-300:])))
+                        r.outcomes['strangers-ok' if not probs else 'strangers-violation'] += 1
+                        kinds = set()
+                        for kind, detail in probs:
+                            if kind not in kinds:
+                                kinds.add(kind)
+                                r.viol('strangers', {'kind': kind, 'twin': twin, 'form': form}, dict(case, only=si), detail)
+        r.samples.append({'stranger_sequences': len(seqs), 'cases': si + 1})
         return r
 
     def c_forms(self, r, case):
